@@ -366,7 +366,7 @@ func genTable(r *hx.Rand, idx int) *table {
 				k.cols = append(k.cols, t.cols[i].name)
 			}
 		}
-		k.comment = genComment(r, !r.Chance(1, 4))
+		k.comment = genComment(r, !r.Chance(1, 2)) // index comments are escaped like the others (fix: commit)
 		t.keys = append(t.keys, k)
 	}
 	t.comment = genComment(r, false)
@@ -382,8 +382,6 @@ func showCreate(e *eng.Eng, ctx *sql.Context, name string) (string, string) {
 	}
 	return r.Rows[0][1], "ok"
 }
-
-func rawSafe(s string) bool { return !strings.ContainsAny(s, "'\\") }
 
 func runCase(t *table, out *hx.Out) error {
 	e := eng.New("d")
@@ -491,10 +489,15 @@ func run(a hx.RunArgs) error {
 	}
 	// corpus ------------------------------------------------------------------------------------
 	corpus := []*table{
-		// finding index_comment_unescaped (Props/C22.lean wK1): KEY … COMMENT 'it's'
+		// repaired defect index_comment_unescaped (Props/C22.lean fixed_index_comment_unescaped): KEY … COMMENT 'it''s'
+		// used to be printed as 'it's' (t1: syntax error) and 'a\\b' as 'a\b' (t2: a different comment); both must
+		// now print escaped, match the model and pass the fixed-point oracle
 		{name: "t1", cols: []col{{name: "a", ty: ty{kind: "int"}, notNull: true}, {name: "b", ty: ty{kind: "varchar", a: 10}, dflt: &dflt{kind: "str", text: "it's"}}},
 			pk: []string{"a"}, keys: []key{{name: "k1", cols: []string{"b"}, comment: "it's"}}},
 		{name: "t2", cols: []col{{name: "a", ty: ty{kind: "int"}, notNull: true}}, pk: []string{"a"}, keys: []key{{name: "k1", cols: []string{"a"}, comment: "a\\b"}}},
+		// every special character of the escaping in an index comment
+		{name: "t2b", cols: []col{{name: "a", ty: ty{kind: "int"}, notNull: true}}, pk: []string{"a"},
+			keys: []key{{name: "k1", cols: []string{"a"}, comment: "q'\\\"\n\r\x00z"}, {unique: true, name: "k0", cols: []string{"a"}, comment: "'"}}},
 		// the same comments on a column and on the table read back
 		{name: "t3", cols: []col{{name: "a`b", ty: ty{kind: "int"}, notNull: true, comment: "it's a\\b \"q\"\nnl"}}, pk: []string{"a`b"}, comment: "tab'le\\"},
 		{name: "we ird`", cols: []col{{name: "x y", ty: ty{kind: "decimal", a: 10, b: 2}, dflt: &dflt{kind: "num", text: "1.50"}}, {name: "é", ty: ty{kind: "char", a: 3}, dflt: &dflt{kind: "str", text: "a\\"}},
@@ -564,9 +567,10 @@ func extract(a hx.ExtractArgs) error {
 		return err
 	}
 	lf.DefStringList("litsEscape", stringLits(src, fd))
-	// is the index comment passed through the escaping function?
+	// is the index comment passed through the escaping function? (the repair of index_comment_unescaped;
+	// facts_match demands true)
 	fd, _ = src.Func("MySqlSchemaFormatter", "GenerateCreateTableIndexDefinition")
-	lf.DefBool("indexCommentEscaped", strings.Contains(src.Text(fd.Body), "EscapeSpecialCharactersInComment"))
+	lf.DefBool("indexCommentEscaped", strings.Contains(src.Text(fd.Body), "EscapeSpecialCharactersInComment(comment)"))
 	fd, _ = src.Func("MySqlSchemaFormatter", "GenerateCreateTableColumnDefinition")
 	lf.DefBool("columnCommentEscaped", strings.Contains(src.Text(fd.Body), "EscapeSpecialCharactersInComment(col.Comment)"))
 
